@@ -27,7 +27,7 @@ var R = hx.NewRecorder("C06", "cases = (server mode gm|auto|tls, client kind gm|
 	"non-trivial = handshake completed with data moved each way, or a forbidden combination that reached the peer's first flight; distinct by hash of the case description")
 
 func TestMain(m *testing.M) {
-	R.Require("reconnect", "reconnect_resumed", "interop_suite:c030", "interop_suite:9d", "interop_suite:c02f", "interop_suite:c014", "interop_suite:cca8", "interop_suite:2f", "ref_peer", "readbuf<record", "mode:gm", "mode:auto", "mode:tls", "suite:e013", "suite:e053", "tls10", "tls11", "tls12", "auth:0", "auth:1", "auth:2", "auth:3", "auth:4",
+	R.Require("ekm_long_input", "reconnect", "reconnect_resumed", "interop_suite:c030", "interop_suite:9d", "interop_suite:c02f", "interop_suite:c014", "interop_suite:cca8", "interop_suite:2f", "ref_peer", "readbuf<record", "mode:gm", "mode:auto", "mode:tls", "suite:e013", "suite:e053", "tls10", "tls11", "tls12", "auth:0", "auth:1", "auth:2", "auth:3", "auth:4",
 		"clientcert:untrusted", "clientcert:callback_untrusted", "certsource:callbacks", "stdlib_client", "stdlib_server", "passive_decoder", "payload>16KiB", "fragment==1", "must_fail", "must_succeed")
 	hx.Main(m, R)
 }
@@ -907,6 +907,21 @@ func TestC06_Handshakes(t *testing.T) {
 			}
 			cl = append(cl, "passive_decoder")
 			masterFirst = d.Master
+			// exported keying material against the definition (RFC 5705 over the GM/T 0024 PRF), with labels and contexts
+			// well beyond the sizes the handshake itself feeds to the PRF
+			ctx := make([]byte, (n*37)%300)
+			gen.Fill(ctx, uint64(n))
+			label := "EXPORTER-verif-" + strings.Repeat("x", (n*13)%90)
+			want := 16 + (n*7)%200
+			seed := append(append(append([]byte{}, d.ClientRandom...), d.ServerRandom...), byte(len(ctx)>>8), byte(len(ctx)))
+			seed = append(seed, ctx...)
+			got, err := cs.ExportKeyingMaterial(label, ctx, want)
+			if ref := rgmssl.PRF(d.Master, label, seed, want); err != nil || !bytes.Equal(got, ref) {
+				t.Fatalf("ExportKeyingMaterial(label %d bytes, context %d bytes, %d bytes out) is not PRF(master, label, client_random || server_random || len || context): err=%v\n got  %x\n want %x\n%s", len(label), len(ctx), want, err, got, ref, desc)
+			}
+			if len(label)+len(seed) > 128 {
+				cl = append(cl, "ekm_long_input")
+			}
 		}
 		// "session tickets on": the same two configurations connect again (the client cache may now offer a ticket);
 		// whether or not the server resumes, the second connection must agree on the same parameters and carry data
